@@ -238,6 +238,47 @@ theorem replaceScan_spec (old new : Bytes) (hold : old ≠ []) :
       · rename_i hp
         exact Replaced.cons (fun hx => hp ((isPrefixOf_iff _ _).2 hx)) (ih rest (by simpa using hs))
 
+/-! ### Replace with an empty `old` -/
+
+theorem replaceEmptySkip_skip (new xs t : Bytes) :
+    replaceEmptySkip new xs.length (xs ++ t) = xs ++ replaceEmptySkip new 0 t := by
+  induction xs with
+  | nil => rfl
+  | cons x xs ih =>
+    cases h : xs ++ t with
+    | nil =>
+      have := List.append_eq_nil_iff.1 h
+      simp [this.1, this.2, replaceEmptySkip]
+    | cons y ys =>
+      simp only [List.length_cons, List.cons_append, h, replaceEmptySkip]
+      rw [← h, ih]
+
+theorem replaceEmpty_encodeRune (new : Bytes) (r : Nat) (hv : validRune r = true) (t : Bytes) :
+    replaceEmptySkip new 0 (encodeRune r ++ t) = new ++ encodeRune r ++ replaceEmptySkip new 0 t := by
+  have hd := decodeRune_encodeRune r hv t
+  have hp := encodeRune_length_pos r
+  cases he : encodeRune r with
+  | nil => simp [he] at hp
+  | cons b xs =>
+    rw [he] at hd
+    simp only [List.cons_append] at hd ⊢
+    simp only [replaceEmptySkip, hd, List.length_cons, Nat.add_sub_cancel]
+    rw [replaceEmptySkip_skip]
+    simp
+
+theorem replace_empty_spec (rs : List Nat) (hv : ∀ r ∈ rs, validRune r = true) (new : Bytes) :
+    replace (encodeAll rs) [] new = new ++ rs.flatMap (fun r => encodeRune r ++ new) := by
+  simp only [replace, List.isEmpty_nil, if_true]
+  induction rs with
+  | nil => simp [encodeAll, replaceEmptySkip]
+  | cons r rs ih =>
+    simp only [encodeAll, List.flatMap_cons]
+    rw [replaceEmpty_encodeRune new r (hv r (by simp))]
+    have := ih (fun x hx => hv x (by simp [hx]))
+    simp only [encodeAll] at this
+    rw [this]
+    simp
+
 /-! ### substr -/
 
 theorem substr3_ok (s : Bytes) (start len : Int) (h1 : 0 ≤ start) (h2 : 0 ≤ len) :
